@@ -73,23 +73,26 @@ impl Service<Request<Bytes>> for Inner {
         Poll::Ready(Ok(()))
     }
     fn call(&mut self, req: Request<Bytes>) -> Self::Future {
+        // The request counts as "inside the service" from the moment `call` is entered (a service may
+        // start its work there: spawn, enqueue, take a resource), until its future completes or is dropped.
         let shared = self.0.clone();
-        Box::pin(async move {
-            let id: u64 = req.headers().get("id").and_then(|s| s.parse().ok()).unwrap_or(u64::MAX);
-            let peer: u8 = req.headers().get("peer").and_then(|s| s.parse().ok()).unwrap_or(255);
-            let (tx, rx) = oneshot::channel();
-            {
-                let mut s = shared.lock().unwrap();
-                let g = s.gauge.entry(peer).or_insert(0);
-                *g += 1;
-                let g = *g;
-                if g > s.max && s.over_limit.is_none() {
-                    s.over_limit = Some(format!("peer {peer}: {g} requests inside the service, limit {}", s.max));
-                }
-                s.invoked.insert(id);
-                s.running.insert(id, (peer, Some(tx)));
+        let id: u64 = req.headers().get("id").and_then(|s| s.parse().ok()).unwrap_or(u64::MAX);
+        let peer: u8 = req.headers().get("peer").and_then(|s| s.parse().ok()).unwrap_or(255);
+        let (tx, rx) = oneshot::channel();
+        {
+            let mut s = shared.lock().unwrap();
+            let g = s.gauge.entry(peer).or_insert(0);
+            *g += 1;
+            let g = *g;
+            if g > s.max && s.over_limit.is_none() {
+                s.over_limit = Some(format!("peer {peer}: {g} requests inside the service, limit {}", s.max));
             }
-            let _guard = Guard(shared, peer, id);
+            s.invoked.insert(id);
+            s.running.insert(id, (peer, Some(tx)));
+        }
+        let guard = Guard(shared, peer, id);
+        Box::pin(async move {
+            let _guard = guard;
             match rx.await {
                 Ok(true) => Ok(Response::new(Bytes::from(id.to_string()))),
                 Ok(false) => Err(Status::new_with_message(StatusCode::BadRequest, format!("planned-{id}"))),
@@ -492,10 +495,117 @@ impl Part for ManyPeers {
     }
 }
 
+// ---------------------------------------------------------------- long histories of cancelled waiters
+
+#[derive(Clone, Debug, Serialize, Deserialize, PartialEq, Eq, Hash)]
+pub struct StormCase {
+    pub max: u8,
+    pub block: bool,
+    /// requests of one peer that arrive while it is at its limit and are cancelled (while waiting, or
+    /// right after being refused), one after the other
+    pub cancelled: u16,
+    /// every k-th of them is cancelled only after the running ones were released and re-admitted
+    pub cycle: u8,
+}
+
+pub struct CancelStorm;
+impl Part for CancelStorm {
+    type Case = StormCase;
+    fn name(&self) -> &'static str { "cancel-storm" }
+    fn rule(&self) -> &'static str {
+        "one peer at its limit (max 1-3 running); 0-1500 further requests arrive one after the other and are cancelled while they wait (Block) or after being refused (ReturnError), with the running ones released and replaced every few steps; oracle: throughout, a waiting request is never refused in Block mode and the gauge never exceeds max; afterwards exactly `max` fresh requests run at once (nothing leaked, nothing used up by the cancelled ones); non-trivial = at least 300 cancelled requests; distinct by case"
+    }
+    fn fixed_cases(&self) -> Vec<StormCase> {
+        vec![StormCase { max: 1, block: true, cancelled: 700, cycle: 0 }, StormCase { max: 2, block: true, cancelled: 300, cycle: 7 }]
+    }
+    fn strategy(&self, _t: Tier) -> BoxedStrategy<StormCase> {
+        (1u8..4, prop::bool::weighted(0.7), prop_oneof![1 => 0u16..100, 2 => 200u16..1500], 0u8..20).prop_map(|(max, block, cancelled, cycle)| StormCase { max, block, cancelled, cycle }).boxed()
+    }
+    fn run(&self, case: &StormCase, obs: &mut Obs) -> Result<(), Fail> {
+        let max = case.max as usize;
+        let mode = if case.block { WaitMode::Block } else { WaitMode::ReturnError };
+        let shared = Arc::new(Mutex::new(Shared { max: max as i64, ..Default::default() }));
+        let mut svc = InflightLimitLayer::new(max, mode).layer(Inner(shared.clone()));
+        let waker = futures::task::noop_waker();
+        let mut cx = Context::from_waker(&waker);
+        let rt = tokio::runtime::Builder::new_current_thread().enable_all().build().map_err(|e| Fail::Inconclusive(e.to_string()))?;
+        let _enter = rt.enter();
+        let drive = || rt.block_on(async { for _ in 0..4 { tokio::task::yield_now().await; } });
+        let mut next_id = 0u64;
+        let mut call = |svc: &mut _| {
+            let id = next_id;
+            next_id += 1;
+            let req = Request::new(Bytes::new()).with_header("id", id.to_string()).with_header("peer", "1").with_extension(peer_id(1, 0));
+            (id, Service::call(svc, req))
+        };
+        let invoked = |id: u64| shared.lock().unwrap().invoked.contains(&id);
+        let release = |id: u64| { let tx = shared.lock().unwrap().running.get_mut(&id).and_then(|e| e.1.take()); if let Some(tx) = tx { let _ = tx.send(true); } };
+        let mut running = Vec::new();
+        for k in 0..max {
+            let (id, mut fut) = call(&mut svc);
+            let r = fut.as_mut().poll(&mut cx);
+            drive();
+            vensure!(r.is_pending() && invoked(id), "c18:refused-below-limit", "request {} of max {max} was not admitted", k + 1);
+            running.push((id, fut));
+        }
+        for n in 0..case.cancelled {
+            let (id, mut fut) = call(&mut svc);
+            let r = fut.as_mut().poll(&mut cx);
+            drive();
+            vensure!(!invoked(id), "c18:over-limit", "waiter number {n}: entered the service although {max} requests are running");
+            if case.block {
+                vensure!(r.is_pending(), "c18:block-refused", "Block mode: request number {n} arriving at the limit did not wait: {}", match &r { Poll::Ready(Err(s)) => format!("refused with {:?}", s.status()), _ => "completed".to_string() });
+            } else {
+                vensure!(matches!(&r, Poll::Ready(Err(s)) if s.status() == StatusCode::TooManyRequests), "c18:wrong-status", "over-limit request not refused with TooManyRequests");
+            }
+            if case.cycle > 0 && n % case.cycle as u16 == 0 && case.block {
+                // let one running request finish: the waiter takes its slot, then it is cancelled while running
+                let (rid, mut rf) = running.remove(0);
+                release(rid);
+                let done = rf.as_mut().poll(&mut cx);
+                drive();
+                vensure!(done.is_ready(), "c18:stuck", "released request did not complete");
+                let r2 = fut.as_mut().poll(&mut cx);
+                drive();
+                vensure!(r2.is_pending() && invoked(id), "c18:capacity-leak", "waiter number {n} was not admitted after a running request finished");
+                running.push((id, fut));
+                continue;
+            }
+            drop(fut);
+            drive();
+        }
+        if let Some(m) = shared.lock().unwrap().over_limit.clone() { vfail!("c18:over-limit", "{m}"); }
+        // release everything; then exactly max fresh requests run
+        for (rid, mut rf) in running.drain(..) {
+            release(rid);
+            let _ = rf.as_mut().poll(&mut cx);
+            drive();
+        }
+        let mut fresh = Vec::new();
+        for k in 0..=max {
+            let (id, mut fut) = call(&mut svc);
+            let r = fut.as_mut().poll(&mut cx);
+            drive();
+            if k < max {
+                vensure!(r.is_pending() && invoked(id), "c18:capacity-leak", "after {} cancelled waiters only {k} of max {max} fresh requests could run ({})", case.cancelled, match &r { Poll::Ready(Err(s)) => format!("refused with {:?}", s.status()), Poll::Ready(Ok(_)) => "completed".into(), Poll::Pending => "waiting".into() });
+            } else {
+                vensure!(!invoked(id), "c18:over-limit", "request {} of max {max} entered the service", k + 1);
+                if case.block { vensure!(r.is_pending(), "c18:block-refused", "Block mode: after {} cancelled waiters a request arriving at the limit was refused instead of waiting", case.cancelled); }
+            }
+            fresh.push(fut);
+        }
+        obs.evals(case.cancelled as u64 + 2 * max as u64 + 1);
+        obs.label(if case.block { "mode:block" } else { "mode:return-error" });
+        if case.cancelled >= 300 { obs.nontrivial(case); }
+        Ok(())
+    }
+}
+
 pub fn run(tier: Tier) -> i32 {
     let mut ctx = Ctx::new("C18", tier);
     ctx.assume("tokio's Semaphore and dashmap are trusted; the harness owns every poll of the request futures (no-op waker), so interleavings are generated, not sampled; a tokio context is present and tasks the implementation may spawn are run to quiescence after every step");
     ctx.run_part(Histories, tier.pick(40_000, 1_500_000));
     ctx.run_part(ManyPeers, tier.pick(300, 6_000));
+    ctx.run_part(CancelStorm, tier.pick(400, 8_000));
     ctx.finish()
 }
